@@ -351,8 +351,29 @@ def sequences(radio, agg, p0f, lite=False):
     return n
 
 
+def events_kept(radio, agg):
+    """R03.8 for the mode / pipe functions (the setters of C03's table are judged there): switching between RX and TX and opening pipes
+    never clears the MAX_RT event - send() decides from it whether a failed payload still sits in the TX FIFO and must be flushed, and the
+    network layer sets `listen = True` after every transmission"""
+    from .radio import regwrites as _rw
+    f_l = radio.prog.method(radio.cls, "listen", "set")
+    cases = [(f_l, [True], "listen = True"), (f_l, [False], "listen = False"),
+             (radio.prog.method(radio.cls, "open_tx_pipe"), [Bytes([(("const", b"2Node"), Const(5))], "bytes")], "open_tx_pipe(b'2Node')"),
+             (radio.prog.method(radio.cls, "open_rx_pipe"), [1, Bytes([(("const", b"3Node"), Const(5))], "bytes")], "open_rx_pipe(1, b'3Node')")]
+    n = 0
+    for f, args, label in cases:
+        n += 1
+        for out in radio.run(f, args, radio.fresh()):
+            clr = [x for x in _rw(out) if x[1] == 7 and (const_of(norm(x[2])) is None or const_of(norm(x[2])) & 0x10)]
+            agg.add("R03.8", f, "switching mode / opening pipes never clears the MAX_RT event", not clr,
+                    "%s writes %r to STATUS - the failed payload that send() would flush on seeing MAX_RT stays first in the TX FIFO and goes out in front of the next one" % (label, clr[0][2] if clr else None),
+                    clr[0][0].node if clr else None)
+    return n
+
+
 def run_for(ck, radio, agg, lite=False):
     p0f = radio.user_pipe0_field()
+    events_kept(radio, agg)
     sequences(radio, agg, p0f, lite)
     n1 = listen_rx(radio, agg, p0f, lite)
     n2 = listen_tx(radio, agg, p0f, lite)
